@@ -37,7 +37,9 @@ CXX["b"] = "bool"
 CMP = {"gt": ">", "lt": "<", "ge": ">=", "le": "<=", "eq": "==", "ne": "!="}
 FAMS = ["fold", "pred", "iseq", "inner", "trace", "issym", "isorth", "det"]
 # translation-unit groups: a TU holds one group and one element type, so that a form that does not compile in one
-# configuration (e.g. min/max of doubles under AVX-512, product of int32 under AVX2) costs exactly those cases
+# configuration costs exactly those cases and is reported with a narrow CompileFail signature (unit name = group_T_nn).
+# min/max and product have their own units: min/max of doubles under AVX-512 (D5) and product of int32 under AVX2 (D18)
+# did not compile before they were repaired
 GROUP = {"sum": "lin", "product": "product", "min": "minmax", "max": "minmax", "norm": "lin", "inner": "lin",
          "inner1": "lin", "trace": "lin", "trace_b": "lin", "all_of": "bool", "any_of": "bool", "none_of": "bool",
          "isequal": "bool", "issymmetric": "bool", "isorthogonal": "bool", "det_b": "det_simple"}
